@@ -287,9 +287,71 @@ def check_c06(rep):
                 b_.shutdown()
                 scripts.append((f"c06-{proto}-{kind}-{len(scripts)}", proto, b_.script,
                                 {"enc": {}, "blockers": [], "proto": proto, "kind": kind, "pattern": pat}))
+    # (c) frames on which the checksum register passes through 0x0000 / 0xFFFF at a chosen prefix (the
+    # end of the header, the end of the covered bytes): intact they must be delivered; with the check
+    # bytes replaced by the checksum of a suffix only (what a computation that restarts at byte k
+    # would produce - a corruption confined to the two check bytes) they must not
+    from harness import console as C
+    special = []
+    for proto in ("at4", "at5"):
+        for typ, payload in (GM.bases(proto)["AcStatus"][0], (0x1F, C.error_info(0, b"E" * 93)), (0x1F, C.version(False, b"1.0"))):
+            frm0 = 0x90 if typ == 0x1F else 0x80
+            for target in (0x0000, 0xFFFF):
+                n = len(payload)
+                hit = None
+                for frm in [frm0] + [x for x in range(256) if x != frm0]:
+                    for pid in range(256):
+                        if C.crc16(bytes([0xB0, frm, pid, typ, n >> 8, n & 255])) == target:
+                            hit = (frm, pid)
+                            break
+                    if hit:
+                        break
+                if hit:
+                    special.append((proto, C.frame(proto, 0xB0, hit[0], hit[1], typ, payload), f"header_crc={target:04x}"))
+            # whole covered span: the last two payload bytes of an unknown-type frame chosen so that the check bytes are 0000 / FFFF
+            for target in (0x0000, 0xFFFF):
+                body = [rng.randrange(256) for _ in range(6)]
+                done = False
+                for x in range(256):
+                    for y in range(256):
+                        pl = body + [x, y]
+                        if C.crc16(bytes([0xB0, 0x80, 9, 0x55, 0, len(pl)] + pl)) == target:
+                            special.append((proto, C.frame(proto, 0xB0, 0x80, 9, 0x55, pl), f"frame_crc={target:04x}"))
+                            done = True
+                            break
+                    if done:
+                        break
+    n_special = 0
+    for proto, fr, what in special:
+        lo = 2 if proto == "at4" else 14
+        cov = fr[lo:-2]
+        variants = [("intact", list(fr))]
+        for k in range(1, len(cov)):
+            c = C.crc16(bytes(cov[k:]))
+            if [c >> 8, c & 255] != fr[-2:]:
+                variants.append((f"restart_at_{k}", fr[:-2] + [c >> 8, c & 255]))
+        if q:
+            variants = variants[:1] + [v for v in variants[1:] if v[0] in ("restart_at_6", "restart_at_1", "restart_at_5", "restart_at_7")] + rng.sample(variants[1:], min(4, len(variants) - 1))
+        for name, f in variants:
+            b_ = G.Builder(proto, rng)
+            if name == "intact":
+                b_.op(op="mark", tag="strict")
+            b_.preamble()
+            b_.op(op="quiesce")
+            b_.op(op="resolve", how="ok")
+            b_.op(op="quiesce")
+            b_.op(op="feed", b=f)
+            b_.op(op="quiesce")
+            b_.heal()
+            b_.shutdown()
+            n_special += 1
+            scripts.append((f"c06-{proto}-special-{len(scripts)}", proto, b_.script,
+                            {"enc": {}, "blockers": [], "proto": proto, "kind": what, "pattern": name}))
     verdicts, metas = PS.run_batch(rep, scripts)
-    PS.judge(rep, verdicts, metas)
-    rep.part("frames damaged by single-bit, double-bit and burst (<=16 bit) errors, then heal phase", scripts=len(scripts))
+    PS.judge(rep, verdicts, metas, also=("SpuriousReset", "FrameNotDelivered"))
+    rep.part("frames damaged by single-bit, double-bit and burst (<=16 bit) errors, then heal phase", scripts=len(scripts) - n_special)
+    rep.part("frames whose checksum register passes through 0000 / FFFF at the end of the header or of the covered bytes: intact "
+             "(must be delivered) and with check bytes of a restarted computation (must not)", frames=len(special), scripts=n_special)
     rep.sample({"kind": "damaged frame script", "proto": scripts[0][1], "pattern": scripts[0][3]["pattern"], "script": scripts[0][2][:9]})
     rep.assumptions += ["'all byte strings' rests on the implementation being a left fold over bytes: 1-, 2- and 3-byte strings exercise every (register, byte) step; longer strings are covered by the frames checked in C03/C13",
                         "the reference CRC is bit-serial CRC-16/MODBUS in Crc16.tla, anchored to the vendor example frames"]
@@ -310,7 +372,10 @@ def check_c03(rep):
         args = [{"msg": d} for d in GM.control_descs(proto, rng, n_random=150 if q else 3000)]
         sp = GM.status_payloads(proto, rng, per_kind=100 if q else 1500)
         if q:
-            sp = [x for x in sp if x[2].endswith("/edge")] + rng.sample(sp, min(len(sp), 900))
+            # always: range ends, every base payload, every record count / stride / name position; sampled: the rest
+            keep = [x for x in sp if x[2].endswith("/edge") or x[2].endswith("/base") or "/count" in x[2]]
+            rest = [x for x in sp if not (x[2].endswith("/edge") or x[2].endswith("/base") or "/count" in x[2])]
+            sp = keep + rng.sample(rest, min(len(rest), 600))
         args += [{"decoded": {"type": t, "payload": p}} for t, p, tag in sp]
         rng.shuffle(args)
         for i in range(0, len(args), 12):
@@ -332,6 +397,18 @@ def check_c03(rep):
             scripts.append((f"c03-{proto}-{i}", proto, b.script, {"enc": {}, "blockers": [], "proto": proto}))
     verdicts, metas = PS.run_batch(rep, scripts)
     PS.judge(rep, verdicts, metas, also=("NoFabrication", "FrameNotDelivered", "DeliverWithoutFrame", "SpuriousReset", "PromptAtQuiesce"))
+    # status-type objects are the image of decode over intact, fully documented console payloads - the
+    # very frames the encoder produces for them; a payload the decoder refuses is a frame of the send
+    # path that the receive path does not accept (and leaves the round trip without its input)
+    refused = 0
+    for sid, (proto, sc, meta, tr) in metas.items():
+        calls = [o for o in sc if o.get("op") == "call" and o.get("method") == "send"]
+        for ev in tr or []:
+            if ev["e"] == "skipped" and ev.get("what") == "call":
+                refused += 1
+                rep.violation("DocumentedFrameRejected", f"script={sid} {ev.get('why')}",
+                              {"key": "DocumentedFrameRejected", "clause": "DocumentedFrameRejected", "proto": proto, "script": sc,
+                               "meta": meta, "why": ev.get("why")})
     rep.evaluations += n_msgs
     rep.part("messages sent through the real send path, written bytes fed back into the real receive path", scripts=len(scripts), messages=n_msgs)
     rep.sample({"kind": "round trip script", "proto": scripts[0][1], "script": scripts[0][2][:12]})
@@ -393,7 +470,9 @@ def check_c17(rep):
             for sub in range(256):
                 if sub in c0_known:
                     continue
-                for (nl, rl, cnt) in ([(0, 0, 0), (0, 4, 2), (3, 5, 1)] if q else [(0, 0, 0), (0, 4, 2), (3, 5, 1), (0, 8, 16), (10, 0, 0)]):
+                # sub-header shapes (normal length, repeat length, repeat count): each part absent / present
+                shapes = [(0, 0, 0), (0, 4, 2), (3, 5, 1), (10, 0, 0), (1, 0, 0), (4, 0, 3), (0, 1, 0), (2, 1, 4), (0, 8, 16)]
+                for (nl, rl, cnt) in (shapes[:4] + [shapes[4 + sub % 5]] if q else shapes):
                     body = [rng.randrange(256) for _ in range(nl + rl * cnt)]
                     frames.append(C.frame(proto, 0xB0, 0x80, 2, 0xC0, [sub, 0, nl >> 8, nl & 255, rl >> 8, rl & 255, cnt >> 8, cnt & 255] + body))
             # status records longer than the known layout are read from their known prefix
